@@ -30,7 +30,7 @@ def run_threads(cfg, preempt=None, opcode=False):
     from reactivex.internal.priorityqueue import PriorityQueue
     from reactivex.scheduler.scheduleditem import ScheduledItem
 
-    ctl = Ctl(targets=EL_FILES, preempt=preempt, opcode=opcode, max_steps=cfg.get("max_steps", 8000))
+    ctl = Ctl(targets=EL_FILES, preempt=preempt, opcode=opcode, max_steps=cfg.get("max_steps", 4000))
     ev = ctl.ev
 
     class LItem(ScheduledItem):
@@ -239,7 +239,7 @@ def labels_of(res):
         if k == "acq" and e[2] == "el":
             if t in sec:
                 problems.append(f"nested acquire of the condition by thread {t}")
-            sec[t] = {"start": pos, "evs": []}
+            sec[t] = {"start": pos, "evs": [], "pevs": []}
             continue
         if k in ("rel", "wait") and e[2] == "el" and t in sec:
             s = sec.pop(t)
@@ -250,25 +250,33 @@ def labels_of(res):
                 if any(x in GUARDED for x in kinds):
                     problems.append(f"activity after a condition wait inside the same locked block: {kinds}")
                 continue
+            # a locked section is linearised at the one access in it that unlocked steps of other threads can race with:
+            # the clock read (collect / submission), the `_is_disposed` write (dispose)
+            def pos_of(kind, default):
+                ps = [p for p, x in s["pevs"] if x[1] == kind]
+                return ps[0] if ps else default
+
             if c is not None and c["kind"] == "dispose":
-                out.append((s["start"], t, ["dispose", ("set_disposed", True) in [(x[1], x[2] if len(x) > 2 else None) for x in evs]], None))
+                first = ("set_disposed", True) in [(x[1], x[2] if len(x) > 2 else None) for x in evs]
+                out.append((pos_of("set_disposed", pos_of("get_disposed", s["start"])), t, ["dispose", first], None))
             elif c is not None:
                 imm = "rl_append" in kinds
                 if not imm and "pq_enq" not in kinds:
                     problems.append(f"schedule section without append/enqueue: {kinds}")
                 spawn = [x[2] for x in evs if x[1] == "thread_start"]
-                out.append((s["start"], t, ["enq", c["lbl"], imm, bool(spawn)], spawn[0] if spawn else None))
+                out.append((pos_of("now_read", s["start"]), t, ["enq", c["lbl"], imm, bool(spawn)], spawn[0] if spawn else None))
             elif kinds and kinds[0] == "get_disposed":
                 if evs[0][2]:
                     out.append((s["start"], t, ["exitDisposed"], None))
                 else:
                     ids = [x[2] for x in evs if x[1] == "ready_append"]
                     reads = [x[2] for x in evs if x[1] == "now_read"]
-                    out.append((s["start"], t, ["collect", ids, reads[0] if reads else None], None))
+                    out.append((pos_of("now_read", s["start"]), t, ["collect", ids, reads[0] if reads else None], None))
             else:
                 if k == "wait":
                     to = e[3]
-                    lab = ["waitU"] if to is None else ["waitT", clock_at[pos] + to]
+                    reads = [x[2] for x in evs if x[1] == "now_read"]
+                    lab = ["waitU"] if to is None else ["waitT", (reads[0] if reads else clock_at[pos]) + to]
                 elif ("set_thread", True) in [(x[1], x[2] if len(x) > 2 else None) for x in evs]:
                     lab = ["exitEmpty"]
                 else:
@@ -276,7 +284,7 @@ def labels_of(res):
                     lab = ["cont"] if rl and rl[0] > 0 else ["recheck"]
                 out.append((s["start"], t, lab, None))
             if k == "wait":
-                sec[t] = {"start": pos, "evs": [], "after_wait": True}
+                sec[t] = {"start": pos, "evs": [], "pevs": [], "after_wait": True}
             continue
         if k == "woke" and t in sec:
             out.append((pos, t, ["woke"], None))
@@ -284,6 +292,7 @@ def labels_of(res):
         s = sec.get(t)
         if s is not None:
             s["evs"].append(e)
+            s["pevs"].append((pos, e))
             if k in ("start", "fin", "skip", "cancel", "tick", "call"):
                 problems.append(f"{k} inside the condition's lock")
             continue
@@ -431,4 +440,37 @@ def oracle(cfg, res):
             return "scheduler quiescent with pending items"
     if not cfg.get("xie") and len(loop_threads) > 1:
         return f"more than one loop thread ran actions without exit_if_empty: {sorted(loop_threads)}"
+    # a single dedicated thread: never two loop threads alive at once; without exit_if_empty never a second one at all
+    alive = set()
+    nstarted = 0
+    for e in events:
+        if e[1] == "thread_start":
+            nstarted += 1
+            if alive:
+                return f"loop thread {e[2]} created while loop thread(s) {sorted(alive)} still alive"
+            alive.add(e[2])
+        elif e[0] in alive and (e[1] == "thread_end" or (e[1] == "set_thread" and e[2] is True)
+                                or (e[1] == "get_disposed" and e[2] is True)):
+            # the thread has decided to exit (reset `_thread` under the lock / saw the disposed flag at the top of its loop)
+            alive.discard(e[0])
+    if not cfg.get("xie") and nstarted > 1:
+        return f"{nstarted} loop threads created without exit_if_empty"
+    # submission order as the CALLER sees it: actions a thread submits one after the other, each already due when submitted,
+    # must be taken in that order
+    per_thread = {}
+    for pos, e in enumerate(events):
+        if e[0] is not None and e[1] == "item" and e[3] <= clock_at(events, pos):
+            per_thread.setdefault(e[0], []).append(e[2])
+    for t, lbls in per_thread.items():
+        got = [x for x in taken if x in lbls]
+        if got != [x for x in lbls if x in got]:
+            return f"actions submitted by thread {t} as immediately due in the order {lbls} were taken in the order {got}"
     return None
+
+
+def clock_at(events, pos):
+    c = 0
+    for e in events[: pos + 1]:
+        if e[1] == "clock":
+            c = e[2]
+    return c
